@@ -6,7 +6,7 @@
 (*                                                                         *)
 (* IOEnv.TRACE_FILE is a JSON array of traces                              *)
 (*   [env, policy, path: [[k, a, how] ...], callables: [[unsafe, alters,   *)
-(*    name] ...], ev: [event ...]]                                         *)
+(*    name, denied] ...], ev: [event ...]]                                         *)
 (* every event is a record with the same fields                            *)
 (*   e   "fetch" | "gate" | "deliver" | "use" | "recv" | "callgate" | "ran"*)
 (*       | "changed" | "ins" | "end"                                       *)
@@ -53,7 +53,8 @@ More == l <= Len(H.ev)
 V(n) == IF n = 0 THEN Opaque ELSE <<n>>     \* value id of an event
 
 CallableRec(i) == [id |-> i, unsafe |-> H.callables[i].unsafe,
-                   alters |-> H.callables[i].alters, name |-> H.callables[i].name]
+                   alters |-> H.callables[i].alters, name |-> H.callables[i].name,
+                   denied |-> H.callables[i].denied]
 
 (* the access path the template wrote, walked on the data by plain Python: one
    step per attribute-like lookup with the kind of the object it is applied to *)
